@@ -173,12 +173,12 @@ struct Quiet;
 impl SignalHandler for Quiet {}
 
 /// run one schedule; returns Err(key, what) on a violation
-fn run_one(tree: &Tree, ys: &[[usize; 4]], stop: Stop, delay: usize) -> Result<(), (String, String)> {
+fn run_one(tree: &Tree, ys: &[[usize; 4]], stop: Stop, delay: usize) -> Result<String, (String, String)> {
     let rt = tokio::runtime::Builder::new_current_thread().enable_time().build().map_err(|e| ("machinery:runtime".to_string(), e.to_string()))?;
     let log: Log = Arc::new(Mutex::new(Vec::new()));
     let out: Arc<Mutex<Option<Built>>> = Arc::new(Mutex::new(None));
     let n = count(tree);
-    let res: Result<Result<(), (String, String)>, tokio::time::error::Elapsed> = rt.block_on(async {
+    let res: Result<Result<String, (String, String)>, tokio::time::error::Elapsed> = rt.block_on(async {
         tokio::time::timeout(std::time::Duration::from_secs(10), async {
             let (src, tx) = SoftwareSignalSource::new();
             let setup = Setup { tree: tree.clone(), ys: ys.to_vec(), log: log.clone(), out: out.clone() };
@@ -221,7 +221,7 @@ fn run_one(tree: &Tree, ys: &[[usize; 4]], stop: Stop, delay: usize) -> Result<(
                     return Err(("actor_task_running_when_runtime_returned".to_string(), format!("Runtime::exec returned but the task of actor {id} is still running")));
                 }
             }
-            Ok(())
+            Ok(log.lock().map(|l| l.join(" ")).unwrap_or_default())
         })
         .await
     });
@@ -238,6 +238,7 @@ pub fn run(args: &[String]) -> ! {
     let ts = trees();
     let (mut total, mut nbad) = (0u64, 0u64);
     let mut per_tree = Vec::new();
+    let mut distinct_logs: std::collections::HashSet<u64> = std::collections::HashSet::new();
     for (ti, (name, tree)) in ts.iter().enumerate() {
         let n = count(tree);
         let radices = vec![maxy + 1; n * 4];
@@ -255,7 +256,7 @@ pub fn run(args: &[String]) -> ! {
             product::ncpu().min(16),
             size,
             64,
-            |_| (0u64, Vec::<(String, String, serde_json::Value)>::new()),
+            |_| (0u64, Vec::<(String, String, serde_json::Value)>::new(), std::collections::HashSet::<u64>::new(), Vec::<serde_json::Value>::new()),
             |acc, idx| {
                 let mut digits = vec![0usize; n * 4];
                 product::decode(idx, &radices, &mut digits);
@@ -263,9 +264,17 @@ pub fn run(args: &[String]) -> ! {
                 for (si, stop) in stops.iter().enumerate() {
                     for d in 0..=maxd {
                         acc.0 += 1;
-                        if let Err((k, w)) = run_one(tree, &ys, *stop, d) {
-                            if acc.1.len() < 5 {
-                                acc.1.push((k, format!("tree `{name}`, stop {stop:?} after {d} turns, extra yields per actor (setup, state, run, cleanup) {ys:?}: {w}"), json!({"tree": ti, "idx": idx, "stop": si, "delay": d})));
+                        match run_one(tree, &ys, *stop, d) {
+                            Err((k, w)) => {
+                                if acc.1.len() < 5 {
+                                    acc.1.push((k, format!("tree `{name}`, stop {stop:?} after {d} turns, extra yields per actor (setup, state, run, cleanup) {ys:?}: {w}"), json!({"tree": ti, "idx": idx, "stop": si, "delay": d})));
+                                }
+                            }
+                            Ok(events) => {
+                                // the order of observable events (setup / run / cleanup per actor) of this schedule
+                                if acc.2.insert(kv_engine::hash_str(&events)) && acc.3.len() < 2 && idx % 97 == 0 {
+                                    acc.3.push(json!({"tree": name, "stop": format!("{stop:?}"), "after_turns": d, "extra_yields_per_actor": ys, "events": events}));
+                                }
                             }
                         }
                     }
@@ -273,8 +282,14 @@ pub fn run(args: &[String]) -> ! {
             },
         );
         let mut runs = 0;
-        for (r, bad) in accs {
+        for (r, bad, logs, smp) in accs {
             runs += r;
+            distinct_logs.extend(logs);
+            for x in smp.into_iter().take(1) {
+                if ctx.samples_len() < 6 {
+                    ctx.sample(x);
+                }
+            }
             for (k, w, c) in bad {
                 nbad += 1;
                 if k.starts_with("machinery:") {
@@ -287,12 +302,11 @@ pub fn run(args: &[String]) -> ! {
         total += runs;
         per_tree.push(json!({"tree": name, "actors": n, "yield_vectors": size, "stops": stops.len(), "delays": maxd + 1, "schedules": runs}));
     }
-    ctx.set("schedules", total);
     ctx.set("evaluations", total);
-    ctx.set("distinct_nontrivial", total);
+    ctx.set("distinct_nontrivial", distinct_logs.len() as u64);
     ctx.set("per_tree", json!(per_tree));
     ctx.set("mismatches", nbad);
-    ctx.set("rule", format!("4 supervisor trees (flat; one subordinate; nested subordinates; sibling subordinates) with actors that finish by themselves, always have work, or wait for a message; every vector of 0..={maxy} extra yields at each actor's setup / state / run / cleanup; the stop (a subordinate's Supervisor::stop, or a terminate signal to the runtime) issued after 0..={maxd} scheduler turns; on a single-threaded executor each combination is one reproducible schedule"));
+    ctx.set("rule", format!("4 supervisor trees (flat; one subordinate; nested subordinates; sibling subordinates) with actors that finish by themselves, always have work, or wait for a message; every vector of 0..={maxy} extra yields at each actor's setup / state / run / cleanup; the stop (a subordinate's Supervisor::stop, or a terminate signal to the runtime) issued after 0..={maxd} scheduler turns; on a single-threaded executor each combination is one reproducible schedule. Non-trivial / distinct = distinct orders of the observable events (setup, run, cleanup of each actor) over all schedules"));
     ctx.set("exhaustive", true);
     ctx.assume("schedules are the ones a single-threaded tokio executor produces as the yield points move (delay-bounded scheduling); interleavings that need true parallelism inside tokio's channels are not explored - the sandbox has no tool that intercepts tokio's primitives");
     ctx.finish();
